@@ -61,6 +61,12 @@ partial def parseTerm : List Char → Option (Val × List Char)
   | 'S' :: r => let (h, r) := spanHex r; some (.str (unhex (String.ofList h)), r)
   | 'L' :: r => let (h, r) := spanHex r; some (.str (cutNul (unhex (String.ofList h))), r)
   | 'R' :: r => let (h, r) := spanHex r; some (.raw (unhex (String.ofList h)), r)
+  | 'B' :: r => let (h, r) := spanHex r; some (.raw (MD.binRaw (unhex (String.ofList h))), r)
+  | 'X' :: r =>
+    let (h, r) := spanHex r
+    match unhex (String.ofList h) with
+    | t :: d => some (.raw (MD.extRaw t.toNat d), r)
+    | [] => none
   | '[' :: ']' :: r => some (.arr [], r)
   | '[' :: r =>
     let rec elems (r : List Char) (acc : List Val) : Option (Val × List Char) :=
@@ -122,8 +128,17 @@ structure DState where
   ps : PL.St := PL.init ⟨256, 4, 4, 16, 16⟩
   w : DH.W := DH.W.init
 
+def histOps : List String :=
+  ["reset", "geo", "root", "mem", "memw", "elem", "elemw", "set", "setm", "sete", "add", "addv", "toarr", "toobj", "remi", "remk", "clear", "cleardoc",
+   "copydoc", "swapdoc", "shrink", "obs", "obsx", "failat", "failfrom", "nofail", "ledger", "hser", "liveq"]
+
 def handle (st : DState) (ws : List String) : String × DState :=
   let pure (s : String) : String × DState := (s, st)
+  if histOps.contains (ws.headD "") then
+    let (res, w) := DH.step st.w ws
+    let w := w.flush
+    (s!"{ws.headD ""} {res}|{" ".intercalate w.log.reverse}", { st with w := { w with log := [] } })
+  else
   match ws with
   | ["jsonde", cfgs, _rk, lim, hex] =>
       let (c, v, pos) := run (cfgOfBits cfgs.toNat!) lim.toNat! (unhex hex)
@@ -252,6 +267,7 @@ partial def loop (h : IO.FS.Stream) (out : IO.FS.Stream) (st : DState) : IO Unit
   let ws := (line.trimAscii.toString.splitOn " ").filter (· != "")
   let (res, st) := handle st ws
   out.putStrLn res
+  out.flush
   loop h out st
 
 def main : IO Unit := do
